@@ -88,6 +88,14 @@ PROPS["C05"] = dict(
     dict(name="c05-circ-big", harness="C05_circ.cpp", entries=["harness_c05_circ"], units=CORE, unwind=80, checks="none", object_bits=14, tiers=["thorough"],
          shards={"thorough": _c05_circ_big}, timeout=1500, mem_gb=10,
          bounds=_C05_CIRC_BOUNDS + "; bases HEX and PRISM_PYR (none + first/last vertex, edge, face resp. one vertex, the shared quad, each cell); incident lists up to 24 elements"),
+    dict(name="c05-steps", harness="C05_circ.cpp", entries=["harness_c05_steps"], units=CORE, unwind=40, checks="none", object_bits=13,
+         shards={"quick": _c05_circ_shards([(B_LOWDIM, 0, [0], 1, [0]), (B_TET, 0, [0], 1, _G4)]),
+                 "thorough": _c05_circ_shards([(B_LOWDIM, 0, [0], 1, [0]), (B_LOWDIM, 1, [0], 1, [0]), (B_LOWDIM, 2, [0], 1, [0]), (B_TET, 0, [0], 1, _G4), (B_TET, 1, [0], 1, _G4),
+                                               (B_TET, 2, [0], 1, _G4), (B_TET, 3, [0], 1, _G4), (B_TET2_FACE, 0, [0], 1, _G4), (B_TET2_FACE, 4, [1], 1, _G4), (B_TET3_RING, 0, [0], 1, _G4)])},
+         timeout={"quick": 300, "thorough": 1200}, mem_gb=6,
+         bounds="symbolic step counts: for every live centre (enumerated) of every one of the 26 circulators, max_laps symbolic in {1,2,3}, k forward steps symbolic in "
+                "0..max_laps*len followed by b backward steps symbolic in 0..k (b = 0 at the end position): valid(), *it, lap() at position k and at position k-b, end == begin "
+                "advanced max_laps*len times; bases LOWDIM and TET without deletion (thorough: + V0/E0/F0 deleted, TET2_FACE none and C1 deleted, TET3_RING none)"),
     dict(name="c05-disabled", harness="C05_circ.cpp", entries=["harness_c05_disabled"], units=CORE, unwind=40, checks="none", object_bits=13,
          shards={"quick": [{0: B_TET}], "thorough": [{0: B_LOWDIM}, {0: B_TET}, {0: B_TET2_FACE}]}, timeout={"quick": 300, "thorough": 900}, mem_gb=6,
          bounds="bases TET (thorough: LOWDIM, TET, TET2_FACE), no deletions; symbolic selector over the 7 non-empty subsets of disabled bottom-up kinds; every centre enumerated; "
